@@ -132,13 +132,26 @@ def events(plan_units, plan_variants, seed, nvariants):
             ev.append({"kind": "unit", "field": field, "form": form, "unit": unit, "v": bits(v), "accepted": acc, "stored": bits(stored),
                        "_m": {"field": field, "form": form, "unit": unit, "v": v, "accepted": acc, "stored": stored}})
     # ---- band
-    for lo, hi in ((30.0, 300.0), (300.0, 30.0), (50.0, 50.0), (0.0, 1e-9), (1000.0, 999.9999)):
+    dflt = Detector.Radio()
+    for lo, hi in ((30.0, 300.0), (300.0, 30.0), (50.0, 50.0), (0.0, 1e-9), (1000.0, 999.9999), (500.0, None), (300.0, None), (299.0, None),
+                   ("1 GHz", None), (None, 30.0), (None, 10.0), (None, 31.0), (None, "20 MHz")):
+        kw = {}
+        if lo is not None:
+            kw["low_frequency"] = lo
+        if hi is not None:
+            kw["high_frequency"] = hi
         try:
-            Detector.Radio(low_frequency=lo, high_frequency=hi)
+            Detector.Radio(**kw)
             acc = True
         except Exception:
             acc = False
-        ev.append({"kind": "band", "lo": bits(lo), "hi": bits(hi), "accepted": acc, "_m": {"lo": lo, "hi": hi, "accepted": acc}})
+        # the band that results: a missing end takes the documented default
+        from astropy.units import Quantity as _Q
+        import astropy.units as _u
+        tomhz = lambda x, d: d if x is None else float(_Q(x).to(_u.MHz).value if isinstance(x, str) else x)
+        elo, ehi = tomhz(lo, dflt.low_frequency), tomhz(hi, dflt.high_frequency)
+        ev.append({"kind": "band", "lo": bits(elo), "hi": bits(ehi), "accepted": acc,
+                   "_m": {"lo_given": lo, "hi_given": hi, "lo": elo, "hi": ehi, "accepted": acc}})
     # ---- months
     names = ["January", "February", "March", "April", "May", "June", "July", "August", "September", "October", "November", "December"]
     cases = []
@@ -169,7 +182,7 @@ def events(plan_units, plan_variants, seed, nvariants):
         rng.shuffle(pick)
         for i, v in enumerate(pick[:nvariants]):
             c = make_variant(v, rng)
-            path = os.path.join(tmp, f"c{i}.toml")
+            path = os.path.join(tmp, "config.toml")       # ONE path, overwritten by every variant: a read returns the last write
             try:
                 create_toml(path, c)
                 back = config_from_toml(path)
